@@ -11,6 +11,7 @@
 (***************************************************************************)
 EXTENDS Compose, Json
 CapSmall == <<2, 3, 100>>
+CapSeg == <<6, 10, 100>>
 ArrAll == <<TRUE, TRUE, TRUE>>
 ArrNone1 == <<FALSE, TRUE, TRUE>>
 VARIABLE hist
